@@ -4,16 +4,23 @@ EXTENDS Witness, Json
 
 CONSTANT Depth    \* length of exported behaviours (cover and simulation configs)
 
-\* exhaustive check: history variables do not distinguish states
+\* exhaustive check: history variables (hist, last, offered) do not distinguish states - no decision reads them
 StateView == <<held, cos>>
 
 \* quick exhaustive check: spellings and faults are not crossed with one another and alias-addressed updates
 \* carry the correct proof only (an alias-addressed update is refused before the proof or the database is
 \* looked at); reads keep the full cross.  Witness.cfg (thorough) checks Next, the full cross.
+QuickReplays(l) == {c \in ReplaySTHs : c.signer = l /\ c.ts = 1 /\ c.over.ts = 1}
 UncrossedNext ==
-  \/ \E l \in AllLogs, c \in Cands, pf \in Proofs : Update(l, "canon", c, pf, "none")
-  \/ \E l \in AllLogs, sp \in Aliases, c \in Cands : Update(l, sp, c, "correct", "none")
-  \/ \E l \in AllLogs, c \in Cands, pf \in Proofs, f \in Faults : Update(l, "canon", c, pf, f)
+  \/ \E l \in AllLogs, c \in PlainCands, pf \in Proofs : Update(l, "canon", c, pf, "none")
+  \/ \E l \in AllLogs, sp \in Aliases, c \in PlainCands : Update(l, sp, c, "correct", "none")
+  \/ \E l \in AllLogs, c \in PlainCands, pf \in Proofs, f \in Faults : Update(l, "canon", c, pf, f)
+  \* replayed signatures (own log's and the other log's; donors offered before or not - `offered` is not in the
+  \* view, no decision reads it): every one with the correct proof, the first-timestamp ones of the addressed log
+  \* with every proof and, separately, every fault
+  \/ \E l \in AllLogs, c \in ReplaySTHs : Update(l, "canon", c, "correct", "none")
+  \/ \E l \in Logs, pf \in Proofs : \E c \in QuickReplays(l) : Update(l, "canon", c, pf, "none")
+  \/ \E l \in Logs, f \in Faults : \E c \in QuickReplays(l) : Update(l, "canon", c, "correct", f)
   \/ NextRead
 
 \* cosigned reply carries the STH held after the step (as an action property so that it is
@@ -24,23 +31,89 @@ CosignedIsHeldAct == [][last'.reply.kind = "cosigned" => last'.reply.sth = held'
 CONSTANTS CoverAliases,      \* spellings exercised in every reachable state
           CoverFaultProofs   \* proof labels paired with every fault
 \* candidates that a fresh row would accept (the ones a second history would be opened with)
-Acceptable(l) == {c \in Cands : c # Garbage /\ ParsesFor(c, l) /\ c.ts = 1}
+Acceptable(l) == {c \in PlainSTHs : ParsesFor(c, l) /\ c.ts = 1}
+\* a genuine STH the witness has (in all likelihood) never been offered
+UnseenDonor(l) == [k |-> "sth", fam |-> "H", size |-> MaxSize, ts |-> 2, signer |-> l, idf |-> "absent", over |-> None]
+\* replayed signatures worth a behaviour of their own in state (held, offered): every content that a fresh row
+\* would accept, under the signature bytes of every STH offered so far (the stored one among them) and of one the
+\* witness has not met
+CoverReplays(l) == {Forge(ContentOf(c), g, "absent") : c \in {x \in Acceptable(l) : x.idf = "absent"},
+                                                        g \in offered[l] \cup {UnseenDonor(l)}}
+                      \cap ReplaySTHs
 ExtraNext ==
   \/ \E l \in Logs, sp \in CoverAliases : \E c \in Acceptable(l) : Update(l, sp, c, "correct", "none")
   \/ \E l \in Logs, pf \in CoverFaultProofs, f \in Faults \ {"none"} : \E c \in Acceptable(l) : Update(l, "canon", c, pf, f)
   \/ \E l \in Logs, sp \in CoverAliases : GetSTH(l, sp, "none")
   \/ \E l \in AllLogs, f \in ReadOpFaults \ {"none"} : GetSTH(l, "canon", f)
   \/ \E f \in ReadOpFaults \ {"none"} : GetLogs(f)
+  \/ \E l \in Logs, pf \in CoverFaultProofs : \E c \in CoverReplays(l) : Update(l, "canon", c, pf, "none")
 
 (* --- cover: every (state reachable in Depth-1 steps) x (every action) pair ends one behaviour --- *)
 CoverNext == Len(hist) < Depth /\ (PlainNext \/ ExtraNext)
+\* `offered` is not part of the view: of the states with equal rows the first one found (breadth first, one worker)
+\* is the one whose replays are exported; WitnessHist*.cfg below keeps `offered` in its view
 CoverView == <<held, cos, IF Len(hist) >= Depth THEN last ELSE None>>
 ExportAtDepth == Len(hist) = Depth => PrintT(<<"BEH", ToJson(hist)>>)
 \* Simulation evaluates invariants on every candidate successor, so the export is attached to a
 \* unique closing step that only the chosen state takes.
 End == [op |-> "End"]
-Finish == Len(hist) = Depth /\ hist' = Append(hist, End) /\ UNCHANGED <<held, cos, last>>
+Finish == Len(hist) = Depth /\ hist' = Append(hist, End) /\ UNCHANGED <<held, cos, offered, last>>
 ExportFinished == (Len(hist) = Depth + 1) => PrintT(<<"BEH", ToJson(SubSeq(hist, 1, Depth))>>)
+
+(* --- history cover: what was offered before x what is offered now ---
+   The first Depth-1 steps build a history for one log out of a small alphabet (genuine STHs and their bad-signature
+   twins; accepted, refused for the proof, lost to a fault after the signature was judged); the last step probes
+   every state (held, offered) reached that way with
+     - every content under the signature bytes of every STH offered so far and of one never offered, with a proof
+       that is correct for the forged tree and with a wrong one, sent to the donor's log and to the other log,
+     - every genuine STH and bad-signature twin (what was refused before must not weigh on what is offered now),
+     - a read of the stored STH. *)
+CONSTANTS HistLogs,      \* logs whose history is built
+          HistProofs,    \* proof labels of history-building and probing updates
+          HistFaults,    \* faults met by history-building updates
+          HistTs         \* timestamps of the alphabet
+HistAlphabet(l) == LET g == {c \in Genuine(l) : c.idf = "absent" /\ c.ts \in HistTs} IN g \cup {BadTwin(c) : c \in g}
+\* a fault is met by at most one history-building update, one that would otherwise have been stored
+HistBuild == \E l \in HistLogs : \E c \in HistAlphabet(l) :
+                \/ \E pf \in HistProofs : Update(l, "canon", c, pf, "none")
+                \/ /\ \A i \in 1..Len(hist) : hist[i].fault = "none"
+                   /\ ParsesFor(c, l)
+                   /\ Decide(l, c, "correct").store
+                   /\ \E f \in HistFaults : Update(l, "canon", c, "correct", f)
+\* contents a forged STH is given: every one of the alphabet's timestamps, and the donor's own with another timestamp
+ForgedContents(g) == {x \in [fam : Fams, size : 0..MaxSize, ts : 1..2] :
+                         Normal(x) /\ x # ContentOf(g) /\ (x.ts \in HistTs \/ (x.fam = g.fam /\ x.size = g.size))}
+HistProbe == \E l \in HistLogs :
+                \/ \E g \in offered[l] : \E x \in ForgedContents(g) :
+                      \/ \E pf \in HistProofs : Update(l, "canon", Forge(x, g, "absent"), pf, "none")
+                      \/ \E l2 \in Logs \ {l} : x.ts \in HistTs /\ Update(l2, "canon", Forge(x, g, "absent"), "correct", "none")
+                \/ \E x \in ForgedContents(UnseenDonor(l)) : Update(l, "canon", Forge(x, UnseenDonor(l), "absent"), "correct", "none")
+                \/ \E c \in HistAlphabet(l) : Update(l, "canon", c, "correct", "none")
+                \/ GetSTH(l, "canon", "none")
+\* the candidate refused for its signature in the last history-building step, if that is what the step was
+LastRefused == IF Depth >= 2 /\ Len(hist) >= Depth - 1 /\ hist[Depth - 1].cand # Garbage
+                  /\ (hist[Depth - 1].cand.signer = "bad" \/ IsReplay(hist[Depth - 1].cand))
+               THEN hist[Depth - 1].cand ELSE None
+\* ... is then offered once more (a refusal must be repeated: no verdict may be remembered before it is reached), and
+\* its content is offered with the log's own signature (a refusal must not be remembered against the content)
+PoisonProbe == \E l \in {hist[Depth - 1].log} :
+                  \/ Update(l, "canon", LastRefused, "correct", "none")
+                  \/ \E pf \in HistProofs :
+                        Update(l, "canon", [k |-> "sth", fam |-> LastRefused.fam, size |-> LastRefused.size, ts |-> LastRefused.ts,
+                                            signer |-> l, idf |-> "absent", over |-> None], pf, "none")
+\* the last history-building step may also be an offer of a replayed signature
+HistBuildForged == /\ Len(hist) = Depth - 2
+                   /\ \E l \in HistLogs : \E g \in offered[l] \cup {UnseenDonor(l)} :
+                         \E x \in {y \in ForgedContents(g) : y.ts \in HistTs} : Update(l, "canon", Forge(x, g, "absent"), "correct", "none")
+HistNext == /\ Len(hist) < Depth
+            /\ IF Len(hist) < Depth - 1 THEN HistBuild \/ HistBuildForged
+               ELSE IF LastRefused # None THEN PoisonProbe ELSE HistProbe
+\* histories that reach the same (held, offered) through different storage faults are kept apart (the code under
+\* test may have been left in different states by them), and so are histories that end in the refusal of different
+\* candidates
+HistPrefix == 1..(IF Len(hist) >= Depth THEN Depth - 1 ELSE Len(hist))      \* the history-building steps taken
+HistView == <<held, cos, offered, [i \in HistPrefix |-> hist[i].fault], LastRefused,
+              IF Len(hist) >= Depth THEN last ELSE None>>
 
 (* --- simulation: weighted towards updates that have a chance of moving the witness forward --- *)
 Plausible(l, c) == IF c = Garbage \/ l \notin Logs THEN FALSE
@@ -48,13 +121,17 @@ Plausible(l, c) == IF c = Garbage \/ l \notin Logs THEN FALSE
                    ELSE IF held[l] = None THEN TRUE ELSE c.size >= held[l].size
 \* RandomElement keeps one successor per step (fast) and gives the mix below instead of the
 \* uniform choice over ~3000 successors that TLC's simulator would make.
-PlausibleCands(l) == {c \in Cands : Plausible(l, c)}
+PlausibleCands(l) == {c \in PlainCands : Plausible(l, c)}
+\* donors of a replayed signature: what the witness was offered as an STH of l, or (nothing offered yet) one it never met
+SimDonors(l) == IF offered[l] = {} THEN {UnseenDonor(l)} ELSE offered[l]
+\* a forged STH that would be taken if its signature were good: larger than (or equal to) the stored one
+SimForged(l, g) == {Forge(ContentOf(c), g, idf) : c \in {x \in PlausibleCands(l) : x.idf = "absent"}, idf \in ForgedIdfs} \cap ReplaySTHs
 SimNext ==
   /\ Len(hist) < Depth
-  /\ \E kind \in {RandomElement(1..15)}, l \in {RandomElement(Logs)} :   \* bound once (a LET would re-draw per use)
+  /\ \E kind \in {RandomElement(1..19)}, l \in {RandomElement(Logs)} :   \* bound once (a LET would re-draw per use)
         CASE kind \in 1..4 -> \E c \in {RandomElement(PlausibleCands(l))} : Update(l, "canon", c, "correct", "none")
           [] kind \in 5..6 -> \E c \in {RandomElement(PlausibleCands(l))}, pf \in {RandomElement(Proofs)} : Update(l, "canon", c, pf, "none")
-          [] kind \in 7..8 -> \E l2 \in {RandomElement(AllLogs)}, sp \in {RandomElement(Spellings)}, c \in {RandomElement(Cands)},
+          [] kind \in 7..8 -> \E l2 \in {RandomElement(AllLogs)}, sp \in {RandomElement(Spellings)}, c \in {RandomElement(PlainCands)},
                                  pf \in {RandomElement(Proofs)}, f \in {RandomElement(Faults)} : Update(l2, sp, c, pf, f)
           [] kind = 9 -> \E l2 \in {RandomElement(AllLogs)}, sp \in {RandomElement(Spellings)},
                             f \in {RandomElement(ReadOpFaults)} : GetSTH(l2, sp, f)
@@ -65,6 +142,14 @@ SimNext ==
           \* an update that would be stored, under a storage fault
           [] kind \in 13..14 -> \E c \in {RandomElement(PlausibleCands(l))}, f \in {RandomElement(Faults \ {"none"})} :
                                    Update(l, "canon", c, "correct", f)
+          \* a replayed signature of an STH met before over a content that would move the witness forward
+          [] kind \in 16..17 -> \E g \in {RandomElement(SimDonors(l))} :
+                                   IF SimForged(l, g) = {} THEN GetSTH(l, "canon", "none")
+                                   ELSE \E c \in {RandomElement(SimForged(l, g))}, pf \in {RandomElement({"correct", "correct", "empty"})} :
+                                           Update(l, "canon", c, pf, "none")
+          \* any replayed signature, to any log, under any spelling, proof and fault
+          [] kind = 18 -> \E l2 \in {RandomElement(AllLogs)}, sp \in {RandomElement(Spellings)}, c \in {RandomElement(ReplaySTHs)},
+                             pf \in {RandomElement(Proofs)}, f \in {RandomElement(Faults)} : Update(l2, sp, c, pf, f)
           [] OTHER -> GetSTH(l, "canon", "none")
 SimNextF == SimNext \/ Finish
 =============================================================================
